@@ -68,6 +68,19 @@ type rewriter struct {
 	file *ast.File
 }
 
+// lastName: the identifier an operand ends in (x, a.b.x), "" otherwise
+func lastName(e ast.Expr) string {
+	switch x := e.(type) {
+	case *ast.Ident:
+		return x.Name
+	case *ast.SelectorExpr:
+		return x.Sel.Name
+	case *ast.ParenExpr:
+		return lastName(x.X)
+	}
+	return ""
+}
+
 func isRecv(e ast.Expr) (*ast.UnaryExpr, bool) {
 	for {
 		if p, ok := e.(*ast.ParenExpr); ok {
@@ -190,9 +203,27 @@ func (r *rewriter) stmt(s ast.Stmt) []ast.Stmt {
 		}
 		r.block(x.Body)
 	case *ast.RangeStmt:
-		// range over a channel cannot be told from the syntax alone; reject the obvious form
 		if containsRecv(x.X) {
 			die(r.fset, x, "receive in range expression")
+		}
+		// range over a channel cannot be told from the syntax alone (no type information is used); an operand whose
+		// NAME says channel (…Ch, …Chan, …Channel, ch - the repository's convention) is taken for one and the loop is
+		// spelled out:  for { ChanRecv(ch); v, ok := <-ch; if !ok { break }; body }   (a wrong guess does not compile)
+		if nm := lastName(x.X); pure(x.X) && x.Value == nil && (strings.HasSuffix(nm, "Ch") || strings.HasSuffix(nm, "Chan") || strings.HasSuffix(nm, "Channel") || strings.HasSuffix(nm, "chan") || nm == "ch" || nm == "c") && nm != "" {
+			r.block(x.Body)
+			var lhs ast.Expr = ast.NewIdent("_")
+			tok := token.ASSIGN
+			if x.Key != nil {
+				lhs = x.Key
+			}
+			if x.Tok == token.DEFINE || x.Key == nil {
+				tok = token.DEFINE
+			}
+			okID := ast.NewIdent("zzok")
+			recv := &ast.AssignStmt{Lhs: []ast.Expr{lhs, okID}, Tok: tok, Rhs: []ast.Expr{&ast.UnaryExpr{Op: token.ARROW, X: x.X}}}
+			brk := &ast.IfStmt{Cond: &ast.UnaryExpr{Op: token.NOT, X: okID}, Body: &ast.BlockStmt{List: []ast.Stmt{&ast.BranchStmt{Tok: token.BREAK}}}}
+			body := append([]ast.Stmt{r.schedCall("ChanRecv", x.X), recv, brk}, x.Body.List...)
+			return []ast.Stmt{&ast.ForStmt{Body: &ast.BlockStmt{List: body}}}
 		}
 		r.expr(x.X)
 		r.block(x.Body)
